@@ -16,8 +16,10 @@ table entries), so that a defect of the node tables is not blamed on the tensor 
 
 Monitors (tolerances are constants; except for axis_permutation/cyclic-xyz all relations below are algebraic identities
 in the nodes/weights, so the oracle tolerance is rounding level, not quadrature level; worst residuals measured on the
-tree with the two proposed fixes, seeds 0,1,2,3,7: size 1.1e-12, strain 3.5e-15, rank 7.5e-15, inverse 5.4e-13,
-homog 2.3e-15, closed form 1.9e-12, textbook (gl) 2.2e-14, rotation 1.4e-14, setter order 0, cyclic-xyz (gl) 2.5e-7):
+tree with the two proposed fixes are listed in the final report / evidence file).  Differences of energies are measured
+relative to U0 = V/2 eps:C:eps (the natural scale of the quadratic form), not relative to the energy itself: with an
+inaccurate quadrature the computed energy can pass through zero, where a relative comparison is ill-conditioned
+(seen: E/U0 = -9e-5 with the order-53 nodes, |E(s r) - s^3 E(r)| = 7e-14 U0 = 7e-10 |E|):
   nonneg             compute() (inhomogeneous, Bohm) and strainEnergyEllipsoid (homogeneous) >= -1e-12 * U0, U0 = V/2 eps:C:eps,
                      also for elongated spheroids up to aspect ratio 100 (the default upper bound of eqAR_byGR); mech
                      carries the aspect-ratio class and `quadrature_resolved`: whether the error
@@ -25,18 +27,18 @@ homog 2.3e-15, closed form 1.9e-12, textbook (gl) 2.2e-14, rotation 1.4e-14, set
                      (for positive weights the homogeneous energy is U0 (1 - sum g) + sum g_n B(n), B(n) >= 0: a negative
                      value needs dq >= E_true/U0, which is >= 0.03 in the sampled space; a negative energy with a resolved
                      quadrature cannot be a quadrature effect)
-  size_scaling       E(s r) = s^3 E(r)                                         rel 1e-10
-  strain_scaling     E(k eps) = k^2 E(eps), k of either sign                    rel 1e-10
-  rank_agree         6x6 formulas = 4th-rank formulas (homogeneous and inhomogeneous)   rel 1e-9
-  inverse_agree      'quick' (Cramer) = 'numpy' 3x3 inversion: Eshelby tensor and energies   rel 1e-10
+  size_scaling       E(s r) = s^3 E(r)                                         1e-10 U0
+  strain_scaling     E(k eps) = k^2 E(eps), k of either sign                    1e-10 U0
+  rank_agree         6x6 formulas = 4th-rank formulas (homogeneous and inhomogeneous)   1e-9 U0
+  inverse_agree      'quick' (Cramer) = 'numpy' 3x3 inversion: Eshelby tensor (rel) and energies (U0)   1e-10
   homog_limit        inhomogeneous formula = homogeneous formula when the precipitate stiffness is unset or set to
-                     the same constants (and the same rotation)                rel 1e-9
+                     the same constants (and the same rotation)                1e-9 U0
   closed_form_sphere isotropic matrix, sphere, dilatational eigenstrain: E = 2G(1+nu)/(1-nu) eps^2 V through every
                      ellipsoid formula and through the spherical approximation (SphericalEnergyDescription)   rel 1e-9
                      (the integrand is a polynomial of degree 4 in n: every rule integrates it exactly)
   eshelby_textbook   sphere in an isotropic matrix: S_ijkl = (5nu-1)/(15(1-nu)) d_ij d_kl + (4-5nu)/(15(1-nu)) (d_ik d_jl + d_il d_jk)
                      (S1111 = (7-5nu)/(15(1-nu)), S1122, S1212; all 81 components)       abs 1e-9
-  rotation_invariance isotropic matrix: energy with an arbitrary matrix rotation = energy without       rel 1e-9
+  rotation_invariance isotropic matrix: energy with an arbitrary matrix rotation = energy without       1e-9 U0
   axis_permutation   isotropic matrix (precipitate unset/same/isotropic): turning the particle - semi-axes and eigenstrain
                      together - by 90 degrees relative to the matrix leaves the energy unchanged (this is how 'the energy does
                      not depend on the orientation of the matrix axes' becomes observable: setRotationMatrix is a no-op for an
@@ -567,7 +569,7 @@ def setter_order_checks(R, rng, quad, cfg, how):
 
 
 def case_energy(case, R):
-    from vlib.core import case_rng, case_hash
+    from vlib.core import case_rng, case_hash, kawin_frame
     rng = case_rng(case['seed'], PROPERTY, case['idx'])
     cfg = draw_config(rng)
     how = int(rng.integers(6))
@@ -582,7 +584,7 @@ def case_energy(case, R):
     zener = [c.get('A', 1.0) for c in (cfg['matrix'], cfg['prec'] or {}) if c]
     nontrivial = any(abs(z - 1) > 0.05 for z in zener) or cfg['ar'] > 1.05
 
-    for quad in QUADS_EVAL:
+    def body(quad):
         sub = np.random.default_rng([int(case['seed']) & 0xFFFFFFFF, 16, int(case['idx']), QUADS.index(quad)])
         se = build(cfg, quad, how=how)
         d = se.description
@@ -611,7 +613,7 @@ def case_energy(case, R):
         # --- size scaling
         Es = _energies(se, s * r)
         for name in ('compute', 'homog4'):
-            e = abs(Es[name] - s ** 3 * E[name]) / max(abs(s ** 3 * E[name]), 1e-300)
+            e = abs(Es[name] - s ** 3 * E[name]) / (s ** 3 * U0)
             R.worst('size_scaling_rel', e)
             R.check('size_scaling', e <= TOL_SCALE, qmech(quad, formula=name, **base), s=s, E=E[name], E_scaled=Es[name],
                     rel_err=e, config=cfg)
@@ -621,28 +623,28 @@ def case_energy(case, R):
         Ek = _energies(se, r)
         se.setEigenstrain(eigT.copy())
         for name in ('compute', 'homog4'):
-            e = abs(Ek[name] - k ** 2 * E[name]) / max(abs(k ** 2 * E[name]), 1e-300)
+            e = abs(Ek[name] - k ** 2 * E[name]) / (k ** 2 * U0)
             R.worst('strain_scaling_rel', e)
             R.check('strain_scaling', e <= TOL_SCALE, qmech(quad, formula=name, **base), k=k, E=E[name], E_scaled=Ek[name],
                     rel_err=e, config=cfg)
 
         # --- 6x6 vs 4th rank
         for f4, f2, formula in (('homog4', 'homog2', 'homogeneous'), ('bohm4', 'bohm2', 'inhomogeneous')):
-            e = _rel(E[f4], E[f2])
+            e = abs(E[f4] - E[f2]) / U0
             R.worst('rank_agree_rel' + ('_shear' if base['shear_active'] else '_noshear'), e)
             R.check('rank_agree', e <= TOL_ALG, qmech(quad, formula=formula, **base), rank4=E[f4], rank2=E[f2], rel_diff=e,
                     config=cfg)
-        e = _rel(E['compute'], E['bohm4'])
+        e = abs(E['compute'] - E['bohm4']) / U0
         R.check('rank_agree', e <= 1e-14, qmech(quad, formula='compute-vs-strainEnergyBohm', **base), compute=E['compute'],
                 bohm4=E['bohm4'])
 
         # --- homogeneous limit
         if cfg['pclass'] in ('unset', 'same'):
-            e = _rel(E['bohm4'], E['homog4'])
+            e = abs(E['bohm4'] - E['homog4']) / U0
             R.worst('homog_limit_rel' + ('_shear' if base['shear_active'] else '_noshear'), e)
             R.check('homog_limit', e <= TOL_ALG, qmech(quad, precipitate=cfg['pclass'], rank=4, **base),
                     inhomogeneous=E['bohm4'], homogeneous=E['homog4'], rel_diff=e, config=cfg)
-            e = _rel(E['bohm2'], E['homog2'])
+            e = abs(E['bohm2'] - E['homog2']) / U0
             R.check('homog_limit', e <= TOL_ALG, qmech(quad, precipitate=cfg['pclass'], rank=2, **base),
                     inhomogeneous=E['bohm2'], homogeneous=E['homog2'], rel_diff=e, config=cfg)
 
@@ -655,7 +657,7 @@ def case_energy(case, R):
         R.worst('inverse_agree_S_rel', e)
         R.check('inverse_agree', e <= TOL_INV, qmech(quad, observable='Eshelby tensor', **base), rel_diff=e, config=cfg)
         for name in ('compute', 'homog4'):
-            e = _rel(E[name], En[name])
+            e = abs(E[name] - En[name]) / U0
             R.worst('inverse_agree_E_rel', e)
             R.check('inverse_agree', e <= TOL_INV, qmech(quad, observable='energy:' + name, **base), quick=E[name],
                     numpy=En[name], rel_diff=e, config=cfg)
@@ -665,7 +667,7 @@ def case_energy(case, R):
             se_r = build(cfg, quad, how=how, extra_matrix_rotation=Rextra)
             Er = _energies(se_r, r)
             for name in ('compute', 'homog4'):
-                e = _rel(E[name], Er[name])
+                e = abs(E[name] - Er[name]) / U0
                 R.worst('rotation_invariance_rel', e)
                 R.check('rotation_invariance', e <= TOL_ALG, qmech(quad, formula=name, precipitate=cfg['pclass'], **base),
                         unrotated=E[name], rotated=Er[name], rel_diff=e, rotation=Rextra, config=cfg)
@@ -687,6 +689,15 @@ def case_energy(case, R):
         else:
             if quad in ('gl', QUADS[case['idx'] % 3]):
                 setter_order_checks(R, sub, quad, cfg, how)
+
+    for quad in QUADS_EVAL:
+        try:
+            body(quad)
+        except Exception as exc:
+            # the statement implies that the energy of an admissible configuration can be evaluated at all
+            if kawin_frame(exc.__traceback__) is None:
+                raise                      # harness error -> case inconclusive
+            R.exception('nonneg', exc, qmech(quad, stage='energy evaluation raised'), config=cfg)
 
     # every case: closed form / textbook for an independent isotropic medium on one rotating repo order + gl
     if cfg['mclass'] != 'iso':
